@@ -1043,6 +1043,18 @@ var handMade = []string{"", " ", "{", "}", "[", "]", "\"", "1x", "01", "-", "1."
 	"\"\\'\"", "\"\\a\"", "[1,,2]", "[1,2", "{\"a\":1", "\"abc", "00", "-01", "1.e1", "1.0e", "--1", "truee", "tr", "n", "f",
 	"{\"a\":1,\"a\":2}", "[\"\xe2\x80\xa8\"]", "[\"<>&\"]"}
 
+func init() {
+	// escaped surrogates around every boundary of the pairing arithmetic, and lone ones
+	his := []string{"d7ff", "d800", "d801", "dbff", "dc00", "D83D"}
+	los := []string{"dbff", "dc00", "dc01", "dfff", "e000", "0041", "DC00"}
+	for _, h := range his {
+		handMade = append(handMade, "\"\\u"+h+"\"", "[\"\\u"+h+"x\"]")
+		for _, l := range los {
+			handMade = append(handMade, "\"\\u"+h+"\\u"+l+"\"", "{\"\\u"+h+"\\u"+l+"\":\"\\u"+h+"\\u"+l+"\"}")
+		}
+	}
+}
+
 func nest(open, cl string, n int) []byte {
 	return []byte(strings.Repeat(open, n) + strings.Repeat(cl, n))
 }
@@ -1275,7 +1287,11 @@ func main() {
 	if len(os.Args) > 3 {
 		n, _ = strconv.Atoi(os.Args[3])
 	}
-	r := &rng{s: seed*0x9e3779b97f4a7c15 + uint64(len(stream))}
+	// scramble the seed (splitmix finaliser) so that neighbouring seeds give unrelated streams
+	z := seed + 0x632be59bd9b4e019*uint64(len(stream)+1)
+	z = (z ^ (z >> 30)) * 0xbf58476d1ce4e5b9
+	z = (z ^ (z >> 27)) * 0x94d049bb133111eb
+	r := &rng{s: z ^ (z >> 31)}
 	pfx := stream + strconv.FormatUint(seed, 10) + "-"
 	switch stream {
 	case "apply":
